@@ -18,7 +18,7 @@ BASE_RE = {
 BASE_CHOICE = {"NUMBER": ["STRICTFLOAT", "INT"], "BASETYPE": ["NUMBER", "FLOAT", "BOOL", "ID", "STRING"]}
 BASE_NAMES = list(BASE_RE) + list(BASE_CHOICE)
 PY_DEFAULT = {"ID": "", "BOOL": False, "INT": 0, "FLOAT": 0.0, "STRICTFLOAT": 0.0, "STRING": "", "NUMBER": 0.0, "BASETYPE": ""}
-COMMENT_RE = {"line": r"#[^\n]*", "block": r"/\*[^*]*\*/"}
+COMMENT_RE = {"line": r"#[^\n]*", "block": r"/\*[^*]*\*/", "both": r"#[^\n]*|/\*[^*]*\*/"}
 DEFAULT_WS = "\t\n\r "
 STEP_BUDGET = 200000
 
@@ -203,6 +203,7 @@ class Interp:
         self.furthest = 0
         self.quirks = set(quirks)
         self.trace = []  # terminals of the successful parse are collected from the tree afterwards
+        self.rule_calls = {}  # (rule, position) -> number of attempts (backtracking indicator)
         ws = cfg.get("ws")
         self.mode0 = (cfg.get("skipws", True), DEFAULT_WS if ws is None else ws, False)
 
@@ -411,6 +412,8 @@ class Interp:
                     pass
             self.fail(p)
         r = self.rules[name]
+        key = (name, p)
+        self.rule_calls[key] = self.rule_calls.get(key, 0) + 1
         m = r.get("mods") or {}
         if m.get("skipws") is not None:
             mode = (m["skipws"], mode[1], mode[2])
